@@ -39,6 +39,7 @@ package mqtt
 //@ end
 
 //@ func (*RetryClient).pushTask
+//@   params c ctx task
 //@   mode int
 //@   props C01 C03
 //@   requires c != nil && task != nil
@@ -51,6 +52,7 @@ package mqtt
 //@   ensures[C11] nonblocking: evCount("recv") == 0 && evCount("send") == 0
 
 //@ func (*RetryClient).Publish
+//@   params c ctx message
 //@   mode int
 //@   props C01 C03 C05
 //@   requires c != nil && message != nil && ctx != nil
@@ -69,6 +71,7 @@ package mqtt
 //@   ensures[C05] invalid_not_queued: guardVal(&c.cli) != nil && message.QoS > QoS2 ==> result != nil && evCount("(*RetryClient).pushTask") == 0
 
 //@ func (*RetryClient).Publish$1
+//@   params ctx cli
 //@   role task
 //@   mode int
 //@   props C01 C03
@@ -79,6 +82,7 @@ package mqtt
 //@        evArg[*Message]("(*RetryClient).publish", 0, 3) == message && evArg[*RetryClient]("(*RetryClient).publish", 0, 0) == c
 
 //@ func (*RetryClient).Subscribe
+//@   params c ctx subs
 //@   mode int
 //@   props C01 C03
 //@   requires c != nil && ctx != nil
@@ -90,6 +94,7 @@ package mqtt
 //@        *closureVarN[**RetryClient](evArg[taskFn]("(*RetryClient).pushTask", 0, 2), "(*RetryClient).Subscribe$1", "c") == c
 
 //@ func (*RetryClient).Unsubscribe
+//@   params c ctx topics
 //@   mode int
 //@   props C01 C03
 //@   requires c != nil && ctx != nil
@@ -101,6 +106,7 @@ package mqtt
 //@        *closureVarN[**RetryClient](evArg[taskFn]("(*RetryClient).pushTask", 0, 2), "(*RetryClient).Unsubscribe$1", "c") == c
 
 //@ func (*RetryClient).requestContext
+//@   params c ctx
 //@   mode int
 //@   props C18
 //@   pure
@@ -111,6 +117,7 @@ package mqtt
 //@   ensures[C01,C02,C03,C08,C12,C18] result1 != nil
 
 //@ func (*RetryClient).Handle
+//@   params c handler
 //@   mode int
 //@   props C17
 //@   requires c != nil
@@ -121,6 +128,7 @@ package mqtt
 //@   ensures[C17] atomically: evCount("(*BaseClient).Handle") == 1 ==> evHeld("(*BaseClient).Handle", 0, &c.mu)
 
 //@ func (*RetryClient).Connect
+//@   params c ctx clientID opts
 //@   mode int
 //@   props C01 C02 C09 C17
 //@   requires c != nil && ctx != nil && len(clientID) <= 0xFFFF
@@ -161,6 +169,7 @@ package mqtt
 //@ end
 
 //@ func (*RetryClient).onError
+//@   params c err
 //@   mode int
 //@   props C18 C11
 //@   requires c != nil
@@ -169,6 +178,7 @@ package mqtt
 //@        (evCount("callback:func(error)") == 1 ==> evArg[error]("callback:func(error)", 0, 0) == err)
 
 //@ func (*RetryClient).publish$1
+//@   params ctx cli message
 //@   role task
 //@   mode int
 //@   props C01 C03 C12 C18
@@ -196,6 +206,7 @@ package mqtt
 //@   ensures[C03] one_request: evCount("(*BaseClient).Subscribe") == 0 && evCount("(*BaseClient).Unsubscribe") == 0 && evCount("go") == 0
 
 //@ func (*RetryClient).publish$2
+//@   params ctx cli
 //@   role task
 //@   mode int
 //@   props C01 C03 C12
@@ -210,6 +221,7 @@ package mqtt
 //@   ensures[C01,C02,C12] handles_own_failure: result == nil
 
 //@ func (*RetryClient).publish
+//@   params c ctx cli message
 //@   role task
 //@   mode int
 //@   props C01 C03 C05 C12
@@ -237,6 +249,7 @@ package mqtt
 //@   ensures[C03] in_order: evCount("(*RetryClient).publish$1") == 1 ==> qlen == 0
 
 //@ func (*RetryClient).Subscribe$1
+//@   params ctx cli
 //@   role task
 //@   mode int
 //@   props C01 C03
@@ -247,6 +260,7 @@ package mqtt
 //@        evArg[bool]("(*RetryClient).subscribe", 0, 2) == false
 
 //@ func (*RetryClient).Unsubscribe$1
+//@   params ctx cli
 //@   role task
 //@   mode int
 //@   props C01 C03
@@ -256,6 +270,7 @@ package mqtt
 //@        sameSlice(evArg[[]string]("(*RetryClient).unsubscribe", 0, 3), topics) && evArg[*RetryClient]("(*RetryClient).unsubscribe", 0, 0) == c
 
 //@ func (*RetryClient).subscribe$1
+//@   params ctx cli
 //@   role task
 //@   mode int
 //@   props C01 C03 C08 C18
@@ -284,6 +299,7 @@ package mqtt
 //@   ensures[C03] one_request: evCount("(*BaseClient).Publish") == 0 && evCount("(*BaseClient).Unsubscribe") == 0 && evCount("go") == 0
 
 //@ func (*RetryClient).subscribe
+//@   params c ctx retry cli subs
 //@   role task
 //@   mode int
 //@   props C01 C03 C08
@@ -301,6 +317,7 @@ package mqtt
 //@        *closureVarN[*bool](c.retryQueue[len(c.retryQueue)-1], "(*RetryClient).subscribe$1", "retry") == retry
 
 //@ func (*RetryClient).unsubscribe$1
+//@   params ctx cli
 //@   role task
 //@   mode int
 //@   props C01 C03 C08 C18
@@ -329,6 +346,7 @@ package mqtt
 //@   ensures[C03] one_request: evCount("(*BaseClient).Publish") == 0 && evCount("(*BaseClient).Subscribe") == 0 && evCount("go") == 0
 
 //@ func (*RetryClient).unsubscribe
+//@   params c ctx cli topics
 //@   role task
 //@   mode int
 //@   props C01 C03 C08
@@ -345,6 +363,7 @@ package mqtt
 //@        *closureVarN[**RetryClient](c.retryQueue[len(c.retryQueue)-1], "(*RetryClient).unsubscribe$1", "c") == c
 
 //@ func (*BaseClient).Subscribe
+//@   params c ctx subs
 //@   mode int
 //@   props C01 C07
 //@   requires c != nil && ctx != nil && c.Transport != nil && subscribable(subs)
@@ -353,6 +372,7 @@ package mqtt
 //@        sameSlice(evArg[[]Subscription]("subscribeImpl", 0, 2), subs) && result1 == evRet[error]("subscribeImpl", 0, 1)
 
 //@ func (*BaseClient).Unsubscribe
+//@   params c ctx subs
 //@   mode int
 //@   props C01 C07
 //@   requires c != nil && ctx != nil && c.Transport != nil && unsubscribable(subs)
@@ -374,6 +394,7 @@ package mqtt
 //@   ensures sameArray(c.subEstablished, e0) || fresh(c.subEstablished) || c.subEstablished == nil
 
 //@ func (*RetryClient).Retry$1
+//@   params ctx cli
 //@   role task
 //@   mode int
 //@   props C01 C02 C03 C08 C12 C18
@@ -454,6 +475,7 @@ package mqtt
 //@ end
 
 //@ func (*RetryClient).Resubscribe$1
+//@   params ctx cli
 //@   role task
 //@   mode int
 //@   props C01 C03 C08
@@ -471,6 +493,7 @@ package mqtt
 //@   ensures[C08] nothing_else: evCount("(*BaseClient).Subscribe") == 0 && evCount("(*BaseClient).Unsubscribe") == 0 && evCount("(*BaseClient).Publish") == 0
 
 //@ func (*RetryClient).Resubscribe
+//@   params c ctx
 //@   mode int
 //@   props C08
 //@   requires c != nil && ctx != nil
@@ -479,6 +502,7 @@ package mqtt
 //@        *closureVarN[**RetryClient](evArg[taskFn]("(*RetryClient).pushTask", 0, 2), "(*RetryClient).Resubscribe$1", "c") == c
 
 //@ func (*RetryClient).Retry
+//@   params c ctx
 //@   mode int
 //@   props C01 C03
 //@   requires c != nil && ctx != nil
@@ -492,18 +516,20 @@ package mqtt
 //@ closer RetryClient.chConnSwitch (*RetryClient).SetClient
 
 //@ func (*RetryClient).SetClient
+//@   params c ctx cli
 //@   mode int
 //@   props C01 C09 C17
 //@   requires c != nil
 //@   relies c.chConnSwitch == nil || !closed(c.chConnSwitch)
 //@   assigns c.chTask
 //@   ensures[C01] installed: c.cli == cli && c.chConnectErr != nil && fresh(c.chConnectErr) && c.chConnSwitch != nil && fresh(c.chConnSwitch)
-//@   ensures[C01,C09] connect_result_buffered: chanCap(c.chConnectErr) >= 1
+//@   ensures[C01,C09,C11] connect_result_buffered: chanCap(c.chConnectErr) >= 1
 //@   let task0 chan struct{} = c.chTask
 //@   ensures[C01] one_loop: evCount("go:(*RetryClient).SetClient$1") == ite(task0 == nil, 1, 0) && c.chTask != nil && (task0 != nil ==> c.chTask == task0)
 //@   ensures[C01,C02] switch_signalled: guardVal(&c.chConnSwitch) != nil ==> evCount("close") == 1 && evArg[chan struct{}]("close", 0, 0) == guardVal(&c.chConnSwitch)
 
 //@ func (*RetryClient).Disconnect$1
+//@   params ctx cli
 //@   role task
 //@   mode int
 //@   props C18
@@ -514,6 +540,7 @@ package mqtt
 //@   ensures[C18] on_error: evRet[error]("(*BaseClient).Disconnect", 0, 0) != nil ==> evCount("(*RetryClient).onError") == 1
 
 //@ func (*RetryClient).Disconnect
+//@   params c ctx
 //@   mode int
 //@   props C09 C11
 //@   requires c != nil && ctx != nil
@@ -527,6 +554,7 @@ package mqtt
 //@   ensures[C11] nonblocking: evCount("select") == 0 && evCount("recv") == 0 && evCount("send") == 0
 
 //@ func (*RetryClient).Ping
+//@   params c ctx
 //@   mode int
 //@   props C11 C18
 //@   requires c != nil && ctx != nil
@@ -537,6 +565,7 @@ package mqtt
 //@   ensures[C18] on_current_client: evArg[*BaseClient]("(*BaseClient).Ping", 0, 0) == guardVal(&c.cli) && evArg[context.Context]("(*RetryClient).requestContext", 0, 1) == ctx
 
 //@ func (*RetryClient).Client
+//@   params c
 //@   mode int
 //@   props C10
 //@   requires c != nil
